@@ -1534,13 +1534,26 @@ package goatlang
 //@   ensures len(t.Tokens) == old(len(t.Tokens)) + 1 && t.Tokens[len(t.Tokens)-1] == b && t.Symbol == old(t.Symbol) && t.Text == old(t.Text) && t.Pos == old(t.Pos)
 //@   ensures forall j int :: 0 <= j && j < old(len(t.Tokens)) ==> t.Tokens[j] == old(t.Tokens[j])
 //@
+//@ -- parser recursion is bounded: every level of doExpression (and getType) passes through descend,
+//@ -- which refuses to go deeper than maxNesting; input nested deeper is a parse error, not a fatal
+//@ -- stack overflow of the host (which no recover handler could stop)
+//@ func (*parser).descend
+//@   property C03
+//@   requires p != nil
+//@   modifies fields(p)
+//@   panics_iff p.nest + 1 > maxNesting
+//@   ensures#bounded p.nest == old(p.nest) + 1 && p.nest <= maxNesting
+//@   ensures#rest p.Token == old(p.Token) && p.Tokens == old(p.Tokens) && p.N == old(p.N) && p.mask == old(p.mask) && p.Depth == old(p.Depth)
 //@ func (*parser).doExpression
-//@   property C05
+//@   property C05 C03
 //@   requires p != nil
 //@   modifies *
 //@   callsite#strict symbol.Led: rbp < lbpOf(arg_t.Symbol)
+//@   ensures#counted @C03 calls("(*parser).descend") == 1
+//@   callsite#guarded @C03 (*parser).Next: calls("(*parser).descend") == 1
 //@ func (*parser).doExpression loop 0
 //@   invariant p != nil
+//@   invariant#counted calls("(*parser).descend") == 1
 //@
 //@ func ledInfix
 //@   property C05 C03
